@@ -71,13 +71,13 @@ HELPERS = [
                "lns(final(self)).len() == code(final(self)).len()", "lns(final(self)).subrange(0, lns(old(self)).len() as int) == lns(old(self))",
                "forall|i: int| lns(old(self)).len() <= i < lns(final(self)).len() ==> lns(final(self))[i] == line",
                "forall|i: int| 0 <= i < lns(old(self)).len() ==> lns(final(self))[i] == lns(old(self))[i]",
-               "forall|a: int| 0 <= a <= pos ==> #[trigger] seg(final(self), a, pos as int) == seg(old(self), a, pos as int)",
+               "forall|a: int, b: int| 0 <= a <= b <= pos ==> #[trigger] seg(final(self), a, b) == seg(old(self), a, b)",
                "sc(final(self)).last_ins.opcode == op", "sc(final(self)).last_ins.position == pos", "sc(final(self)).prev_ins == sc(old(self)).last_ins",
                "others_same(old(self), final(self))", "scope_meta_same(old(self), final(self))",
                "fits_all(op, operands@) || final(self).encoding_error is Some",
                "fresh(&sc(final(self)))", "ext(old(self), final(self))", "gen_s(old(self), final(self))", "starts(code(final(self))) == starts(code(old(self))).push(pos as int)",
                "is_start(final(self), pos as int)", "op_at(code(final(self)), pos as int) == op", "code(final(self)).len() == code(old(self)).len() + ilen(op)"],
-      epilogue="assert(lns(self).subrange(0, lns(old(self)).len() as int) =~= lns(old(self))); assert forall|i: int| 0 <= i < lns(old(self)).len() implies lns(self)[i] == lns(old(self))[i] by { assert(lns(self).subrange(0, lns(old(self)).len() as int)[i] == lns(self)[i]); } lemma_emit(old(self), self, op, operands@); lemma_op_of_byte(op); assert forall|a: int| 0 <= a <= verif_ret implies #[trigger] seg(self, a, verif_ret as int) == seg(old(self), a, verif_ret as int) by { assert(seg(self, a, verif_ret as int) =~= seg(old(self), a, verif_ret as int)); } assert(starts(code(self))[starts(code(old(self))).len() as int] == verif_ret);", props=["C01", "C13", "C14"]),
+      epilogue="assert(lns(self).subrange(0, lns(old(self)).len() as int) =~= lns(old(self))); assert forall|i: int| 0 <= i < lns(old(self)).len() implies lns(self)[i] == lns(old(self))[i] by { assert(lns(self).subrange(0, lns(old(self)).len() as int)[i] == lns(self)[i]); } lemma_emit(old(self), self, op, operands@); lemma_op_of_byte(op); assert forall|a: int, b: int| 0 <= a <= b <= verif_ret implies #[trigger] seg(self, a, b) == seg(old(self), a, b) by { assert(seg(self, a, b) =~= seg(old(self), a, b)); } assert(starts(code(self))[starts(code(old(self))).len() as int] == verif_ret);", props=["C01", "C13", "C14"]),
     m("is_last_instruction", ret="r", requires=["self.scope_index < self.scopes@.len()"], ensures=["r == (code(self).len() > 0 && sc(self).last_ins.opcode == opcode)"]),
     m("replace_instruction", requires=["old(self).scope_index < old(self).scopes@.len()", "pos + new_instruction@.len() <= code(old(self)).len()"],
       ensures=["rest_same(old(self), final(self))", "lns(final(self)) == lns(old(self))",
@@ -131,6 +131,7 @@ GEN = ["r is Ok ==> gen(old(self), final(self))"]
 GEN_S = ["r is Ok ==> gen_s(old(self), final(self))"]
 REV = ' proof { lemma_strlits(); reveal_strlit("&&"); reveal_strlit("||"); reveal_strlit("+"); reveal_strlit("-"); reveal_strlit("*"); reveal_strlit("/"); reveal_strlit("%"); reveal_strlit("=="); reveal_strlit("!="); reveal_strlit(">"); reveal_strlit("<"); reveal_strlit(">="); reveal_strlit("<="); reveal_strlit("&"); reveal_strlit("|"); reveal_strlit("^"); reveal_strlit("<<"); reveal_strlit(">>"); reveal_strlit("!"); reveal_strlit("~"); reveal_strlit("$"); } '
 BCAST = " broadcast use lemma_ext_trans, lemma_gen_trans, lemma_gen_s_trans, lemma_start_kept; "
+BCAST_SEG = " broadcast use lemma_seg_kept; "
 REFL = " proof { lemma_gen_refl(self, self); } "
 
 RW2 = [
@@ -221,7 +222,7 @@ COMPILE = [
                                 "cwf(&verif_sb)", "code(&verif_sb).len() > 0", "sc(&verif_sb).last_ins.position == pos", "sc(&verif_sb).last_ins.opcode == Opcode::Jump", "fresh(&sc(&verif_sb))", "gen_s(old(self), &verif_sb)", "pos >= code(old(self)).len()", "verif_param is Break"],
                      decreases="verif_k", body_prologue=BCAST),
              3: dict(invariant=["gen_s(old(self), self)", "*self == *old(self)", "verif_param is Continue"], body_prologue=BCAST)}),
-    m("compile_expression", ret="r", requires=PRE, props=["C06", "C13", "C01", "C14"],
+    m("compile_expression", ret="r", requires=PRE, props=["C06", "C13", "C09", "C01", "C14"],
       ensures=GEN + ["r is Ok ==> emitted_by(expr, seg(final(self), code(old(self)).len() as int, code(final(self)).len() as int))",
                      # C06: the logical operators are compiled by the short-circuit generators, on their own operands, in source order
                      "r is Ok ==> (expr matches Expression::Binary(b) ==> (b.operator@ == \"&&\"@ ==> and_shape(old(self), final(self), *b.left, *b.right, b.token.line)))",
@@ -231,8 +232,12 @@ COMPILE = [
                      "r is Ok && op_line(expr) is Some ==> last_line_is(old(self), final(self), op_line(expr)->0)",
                      "r is Ok ==> (expr matches Expression::Unary(u) ==> sc(final(self)).last_ins.opcode == unary_opcode(u.operator@) && unary_opcode(u.operator@) != Opcode::Invalid && emitted_by(*u.right, seg(final(self), code(old(self)).len() as int, sc(final(self)).last_ins.position as int)))",
                      "r is Ok ==> (expr matches Expression::Binary(b) ==> (!is_logical(b.operator@) ==> sc(final(self)).last_ins.opcode == infix_opcode(b.operator@) && infix_opcode(b.operator@) != Opcode::Invalid))",
-                     "r is Ok ==> (expr matches Expression::Call(c) ==> sc(final(self)).last_ins.opcode == Opcode::Call)"],
-      prologue=BCAST + REFL + REV, attrs=NODEC,
+                     "r is Ok ==> (expr matches Expression::Call(c) ==> sc(final(self)).last_ins.opcode == Opcode::Call)",
+                     # C09: operands in source order; '<' and '<=' are '>' and '>=' on the swapped operands
+                     "r is Ok ==> (expr matches Expression::Binary(b) ==> (!is_logical(b.operator@) ==> binary_shape(old(self), final(self), b)))"],
+      prologue=BCAST + BCAST_SEG + REFL + REV, attrs=NODEC,
+      rewrites=[dict(rule="R9g", re=r"(self\.compile_expression\(\*binary\.(?:left|right)\)\?;)(\s*self\.compile_expression\(\*binary\.)", to=r"\1 let ghost verif_bp = code(self).len() as int;\2", why="ghost: where the first operand's code ends"),
+                dict(rule="R9g", re=r"(self\.compile_infix_expr\([^;]*;)", to=r"\1 proof { assert(binary_at(old(self), self, binary, verif_bp)); }", why="proof hint: witness of binary_shape")],
       epilogue="assume(emitted_by(expr, seg(self, code(old(self)).len() as int, code(self).len() as int)));",
       loops={0: dict(invariant=["gen(old(self), self)"], body_prologue=BCAST), 1: dict(invariant=["gen(old(self), self)"], body_prologue=BCAST), 2: dict(invariant=["gen(old(self), self)"], body_prologue=BCAST)}),
     m("compile_if_expression", ret="r", requires=PRE, ensures=GEN + ["r is Ok ==> if_shape(old(self), final(self), *expr.condition)"], prologue=BCAST, attrs=NODEC + ["#[verifier::rlimit(400)]"], props=["C06", "C01", "C14"],
